@@ -214,7 +214,9 @@ def do_program(job):
         res["roundtrip_diff"] = diffs[:40]
     # truncations
     n = len(data)
-    cuts = list(range(n)) if n <= job.get("max_cuts", 400) else sorted(random.Random(job["seed"]).sample(range(n), job.get("max_cuts", 400)))
+    big = n > 5000   # huge payloads (70 kB strings): fewer cuts/corruptions, every one costs a full decode on both sides
+    max_cuts = min(job.get("max_cuts", 400), 40) if big else job.get("max_cuts", 400)
+    cuts = list(range(n)) if n <= max_cuts else sorted(random.Random(job["seed"]).sample(range(n), max_cuts))
     trunc = []
     for c in cuts:
         oc, info = outcome_of(lambda: scenario.sceneFromBytes(data[:c]))
@@ -224,7 +226,7 @@ def do_program(job):
     # single-byte corruptions
     rr = random.Random(job["seed"] + 1)
     corr = []
-    npos = job.get("npos", 60)
+    npos = min(job.get("npos", 60), 12) if big else job.get("npos", 60)
     poss = list(range(n)) if n <= npos else sorted(rr.sample(range(n), npos))
     for pos in poss:
         alts = range(256) if n <= 24 else rr.sample(range(256), job.get("alts", 6))
